@@ -311,6 +311,46 @@ def text_has(t, elem):
     return mk_bool(z3.Exists([j], z3.And(0 <= j, j < V._z(t.length), t.raw(j) == e)))
 
 
+_HAS_SURR = z3.Function("Text.has_lone_surrogate", z3.IntSort(), z3.IntSort(), z3.IntSort(), z3.BoolSort())
+
+
+def utf8_encoded(st, t):
+    """Assumed model of `s.encode("utf-8")` for a base str text s — returns (bytes text, raises: Bool):
+      * raises UnicodeEncodeError exactly when s holds a lone surrogate (an uninterpreted predicate of s);
+      * otherwise a bytes text, the same one every time for the same s, with len(s) <= len(b) <= 4 * len(s), and —
+        if s is not empty — a first byte that is not a UTF-8 continuation byte (10xxxxxx).
+    Cross-checked against CPython by `xcheck_utf8_encode()`."""
+    if isinstance(t, _Derived):
+        raise Unsupported("utf-8 encoding of a derived text")
+    cache = st.ghost.setdefault("utf8_of", {})
+    key = (t.name, str(V._z(t.offset)), str(V._z(t.length)))
+    if key not in cache:
+        n = st.fresh_int(f"{t.name}$utf8_len")
+        b = SText("bytes", n, st.fresh_name(f"{t.name}$utf8"))
+        ln = V._z(t.length)
+        b0 = b.f(z3.IntVal(0))
+        st.assume(z3.And(n.e >= ln, n.e <= 4 * ln, z3.Implies(ln > 0, z3.And(b0 >= 0, b0 <= 255, z3.Not(z3.And(b0 >= 0x80, b0 <= 0xBF))))))
+        bad = mk_bool(_HAS_SURR(z3.Int(f"{t.name}$id"), V._z(t.offset), ln))
+        cache[key] = (b, bad)
+    return cache[key]
+
+
+def xcheck_utf8_encode():
+    """CPython agrees with the assumed facts of `utf8_encoded` on a sample of strings (all planes, empty, surrogates)."""
+    bad = []
+    for s in ["", "a", "é", "中", "\U0001f600", "a中é", "\x00", "\x7f\x80", "\ud800", "a\udfff", "\uffff\U00010000"]:
+        surr = any(0xD800 <= ord(c) <= 0xDFFF for c in s)
+        try:
+            b = s.encode("utf-8")
+        except UnicodeEncodeError:
+            if not surr:
+                bad.append((s, "raised"))
+            continue
+        if surr or not (len(s) <= len(b) <= 4 * len(s)) or (s and 0x80 <= b[0] <= 0xBF):
+            bad.append((s, b))
+    return (not bad, f"mismatches {bad}" if bad else "str.encode('utf-8') agrees with the assumed model on the sample")
+
+
 def xcheck_derived_texts():
     """Concrete cross-check of the derived-text terms against CPython: for small str and bytes operands build
     a + b, a[lo:hi], (a + b)[lo:hi] + c, c1 * n with the classes above, read every element back through z3 and
